@@ -1,1 +1,274 @@
-fn main() { eprintln!("not built yet"); std::process::exit(2); }
+//! vx-fsx: engine D — turmoil-fs (std shim, tokio shim) and turmoil-io-uring entered
+//! directly with harness-owned time and rng.
+
+mod fsys;
+mod model;
+mod ops;
+
+use std::time::Duration;
+
+use fsys::{FsCfg, FsSys, Prop};
+use ops::{Front, Op};
+use serde_json::json;
+use vx_core::report::{Report, Tier};
+use vx_core::{explore_bfs, BfsConfig, System};
+
+fn c10_letters(tier: Tier) -> Vec<Op> {
+    use Front::*;
+    let mut v = vec![
+        Op::Mkdir(0),
+        Op::Mkdir(1),
+        Op::Rmdir(0),
+        Op::RmdirAll(0),
+        Op::MkdirAll(2),
+        Op::Create(0),
+        Op::Create(1),
+        Op::CreateNew(0),
+        Op::OpenTrunc(0),
+        Op::WriteAt(0, 0, 0, Std),
+        Op::WriteAt(0, 2, 1, Std),
+        Op::WriteAt(1, 0, 0, Std),
+        Op::WriteAt(0, 0, 1, Tokio),
+        Op::Append(0),
+        Op::SetLen(0, 0),
+        Op::SetLen(0, 1),
+        Op::SetLen(0, 4),
+        Op::RenameF(0, 1),
+        Op::RenameF(1, 0),
+        Op::RenameF(0, 3),
+        Op::RemoveFile(0),
+        Op::RemoveFile(1),
+        Op::SyncAll(0, Std),
+        Op::SyncAll(0, Tokio),
+        Op::SyncData(0),
+        Op::SyncDir(3),
+        Op::SyncDir(0),
+        Op::ReadAt(0, 1, 4, Std),
+        Op::ReadAt(0, 0, 1, Tokio),
+        Op::Cursor(0),
+        Op::AppendCursor(0),
+        Op::RenameF(1, 3),
+        Op::RenameF(3, 0),
+        Op::Advance,
+    ];
+    if tier == Tier::Thorough {
+        v.extend([
+            Op::Create(2),
+            Op::WriteAt(2, 2, 0, Std),
+            Op::RenameF(1, 2),
+            Op::RemoveFile(2),
+            Op::Mkdir(2),
+            Op::Rmdir(1),
+            Op::RmdirAll(1),
+            Op::SyncAll(1, Std),
+            Op::SyncDir(1),
+            Op::Cursor(1),
+        ]);
+    }
+    v
+}
+
+fn c07_letters(tier: Tier) -> Vec<Op> {
+    use Front::*;
+    let mut v = vec![
+        Op::Mkdir(0),
+        Op::Create(0),
+        Op::Create(1),
+        Op::CreateNew(0),
+        Op::OpenTrunc(0),
+        Op::WriteAt(0, 0, 0, Std),
+        Op::WriteAt(0, 2, 1, Std),
+        Op::WriteAt(1, 0, 0, Std),
+        Op::WriteAt(0, 0, 1, Tokio),
+        Op::Append(0),
+        Op::SetLen(0, 1),
+        Op::SetLen(0, 4),
+        Op::RenameF(0, 1),
+        Op::RenameF(1, 0),
+        Op::RemoveFile(0),
+        Op::RemoveFile(1),
+        Op::Rmdir(0),
+        Op::SyncAll(0, Std),
+        Op::SyncAll(1, Std),
+        Op::SyncAll(0, Tokio),
+        Op::SyncData(0),
+        Op::SyncDir(3),
+        Op::SyncDir(0),
+        Op::Crash,
+    ];
+    if tier == Tier::Thorough {
+        v.extend([Op::Mkdir(1), Op::RenameF(0, 3), Op::SyncDir(1), Op::Create(2), Op::RenameF(1, 2), Op::SyncAll(2, Std)]);
+    }
+    v
+}
+
+fn run_fs(rep: &mut Report, cfgs: Vec<FsCfg>, wall: Duration, cap: usize) {
+    for c in cfgs {
+        let mut b = BfsConfig::new(&c.name);
+        b.scenario = c.describe();
+        b.bounds = c.describe();
+        b.wall = wall;
+        b.max_states = cap;
+        b.max_depth = c.depth + 1;
+        b.max_violations = 300_000;
+        let st = explore_bfs::<FsSys>(&b, &c);
+        for s in st.samples.iter().take(1) {
+            rep.sample(json!({"config": c.name, "history": s}));
+        }
+        rep.violations.extend(st.violations);
+        rep.add_part(st.part);
+    }
+}
+
+fn configs(prop: &str, tier: Tier) -> Vec<FsCfg> {
+    match prop {
+        "C10" => vec![
+            FsCfg {
+                name: "posix-tree".into(),
+                prop: Prop::C10,
+                letters: c10_letters(tier),
+                depth: tier.pick(5, 6),
+                sync_prob: 0.0,
+                block: None,
+            },
+            // directory renames are a known finding (F-FS-3) of the path-keyed tree; they are
+            // kept out of the main alphabet (every history containing one diverges) and
+            // exercised here so the finding stays visible
+            FsCfg {
+                name: "dir-rename".into(),
+                prop: Prop::C10,
+                letters: vec![Op::Mkdir(0), Op::Mkdir(1), Op::Create(1), Op::RenameD(0, 1), Op::RenameD(1, 0), Op::SyncDir(3), Op::SyncDir(0)],
+                depth: 3,
+                sync_prob: 0.0,
+                block: None,
+            },
+        ],
+        "C07" => {
+            let mut v = vec![
+                FsCfg { name: "durable".into(), prop: Prop::C07, letters: c07_letters(tier), depth: tier.pick(5, 6), sync_prob: 0.0, block: None },
+                FsCfg {
+                    name: "durable-torn-b1".into(),
+                    prop: Prop::C07,
+                    letters: vec![
+                        Op::Create(0),
+                        Op::WriteAt(0, 0, 0, Front::Std),
+                        Op::WriteAt(0, 2, 1, Front::Std),
+                        Op::SetLen(0, 1),
+                        Op::SyncAll(0, Front::Std),
+                        Op::SyncDir(3),
+                        Op::RemoveFile(0),
+                        Op::Crash,
+                    ],
+                    depth: tier.pick(6, 7),
+                    sync_prob: 0.0,
+                    block: Some(1),
+                },
+                FsCfg {
+                    name: "durable-bgsync".into(),
+                    prop: Prop::C07,
+                    letters: vec![
+                        Op::Create(0),
+                        Op::WriteAt(0, 0, 0, Front::Std),
+                        Op::WriteAtSynced(0, 2, 1),
+                        Op::WriteAtSynced(0, 0, 1),
+                        Op::SetLen(0, 1),
+                        Op::SyncDir(3),
+                        Op::RemoveFile(0),
+                        Op::Crash,
+                    ],
+                    depth: tier.pick(6, 7),
+                    sync_prob: 0.5,
+                    block: None,
+                },
+            ];
+            if tier == Tier::Thorough {
+                v.push(FsCfg {
+                    name: "durable-torn-b2".into(),
+                    prop: Prop::C07,
+                    letters: vec![
+                        Op::Create(0),
+                        Op::WriteAt(0, 0, 0, Front::Std),
+                        Op::WriteAt(0, 2, 0, Front::Std),
+                        Op::WriteAt(0, 1, 1, Front::Std),
+                        Op::SyncAll(0, Front::Std),
+                        Op::SyncDir(3),
+                        Op::Crash,
+                    ],
+                    depth: 7,
+                    sync_prob: 0.0,
+                    block: Some(2),
+                });
+            }
+            v
+        }
+        _ => vec![],
+    }
+}
+
+fn main() {
+    vx_core::install_quiet_panic_hook();
+    let args: Vec<String> = std::env::args().collect();
+    if args.len() < 3 {
+        eprintln!("usage: vx-fsx <C07|C10|C18> <quick|thorough> | vx-fsx replay <file>");
+        std::process::exit(2);
+    }
+    if let Err(e) = fsys::calibrate() {
+        vx_core::machinery_error(&format!("rng seam calibration failed: {e}"));
+    }
+    if args[1] == "replay" {
+        replay(&args[2]);
+        return;
+    }
+    let tier = Tier::parse(&args[2]);
+    let (wall, cap) = tier.pick((Duration::from_secs(40), 5_000_000), (Duration::from_secs(900), 60_000_000));
+    match args[1].as_str() {
+        "C10" => {
+            let mut rep = Report::new("C10", tier, "model_checking", "fsx");
+            rep.rule = "explicit-state BFS over operation histories (std shim, tokio shim) on a small path universe; after every operation the return value and a full observation sweep (exists, kind, len, contents, read_dir of every path) are compared with a reference in-memory POSIX tree; sync and time letters at every position".into();
+            run_fs(&mut rep, configs("C10", tier), wall, cap);
+            rep.finish();
+        }
+        "C07" => {
+            let mut rep = Report::new("C07", tier, "fault_enumeration", "fsx");
+            rep.rule = "explicit-state BFS over operation histories in which CRASH is a transition enabled in every state (so a crash follows every prefix of every history, and crash-continue-crash cycles occur); post-crash sweep compared with the reference durability image; torn-write survival vectors and background-sync coins are enumerated through the scripted Fs::rng".into();
+            run_fs(&mut rep, configs("C07", tier), wall, cap);
+            rep.finish();
+        }
+        other => vx_core::machinery_error(&format!("vx-fsx does not serve {other}")),
+    }
+}
+
+fn replay(path: &str) {
+    let (prop, scenario, choices) = vx_core::report::load_replay(path);
+    let name = scenario.split_whitespace().next().unwrap_or("").to_string();
+    let mut cs = configs(&prop, Tier::Thorough);
+    cs.extend(configs(&prop, Tier::Quick));
+    // thorough and quick letter tables differ: pick by letter count recorded in the scenario
+    let want_letters: Option<usize> = scenario.split_whitespace().find_map(|t| t.strip_prefix("letters=").and_then(|x| x.parse().ok()));
+    let Some(cfg) = cs.into_iter().find(|c| c.name == name && Some(c.letters.len()) == want_letters) else {
+        vx_core::machinery_error(&format!("replay: unknown scenario {name} for {prop}"));
+    };
+    println!("replaying {prop} {}", cfg.describe());
+    let mut s = FsSys::init(&cfg);
+    for (i, &a) in choices.iter().enumerate() {
+        println!("--- step {i}: {}", s.describe(a as u16));
+        match vx_core::catch(|| s.apply(a as u16)) {
+            Ok(Ok(())) => {}
+            Ok(Err(v)) => {
+                println!("VIOLATION clause={} sig={}\n  {}", v.clause, v.sig, v.detail);
+                std::process::exit(1);
+            }
+            Err(p) => {
+                println!("PANIC {p}");
+                std::process::exit(1);
+            }
+        }
+    }
+    match s.finish().1 {
+        Some(v) => {
+            println!("VIOLATION clause={} : {}", v.clause, v.detail);
+            std::process::exit(1);
+        }
+        None => println!("no violation on this history"),
+    }
+}
